@@ -16,7 +16,9 @@
    Every u32 operation goes through add32/sub32/shl32: with [ck = true] (the harness' "checked"
    profile: overflow-checks = on, what a debug build does) an overflow is [Panic]; with [ck = false]
    (release profile) the result wraps modulo 2^32.  The functions suffixed [_old] are the code before
-   the "fix:" patches repo-patches/01 and 02; they are kept so that the refutations stay checked. *)
+   the "fix:" commits (repo-patches/01 for the encoder estimator; /repo commit 009e680 for the
+   lzma2_reader.rs get_dict_size clamp and repo-patches/02 for decode_props); they are kept so that
+   the refutations stay checked. *)
 From LzVerif Require Export Base.Bytes.
 
 Definition U32 : Z := 4294967296.
